@@ -400,7 +400,8 @@ pub fn predict(seq: u64, pairs: &Pairs, op: &Op, m: &ModelCtx) -> Pred {
         TJ::Bad(c) => must.push(c),
         TJ::Either(why) => {
             corner = Some(why);
-            may.extend_from_slice(&[Cause::IllTyped, Cause::Malformed, Cause::UnsupportedId]);
+            // (SigningError: the library refuses to sign content that would not resolve to the signer's key)
+            may.extend_from_slice(&[Cause::IllTyped, Cause::Malformed, Cause::UnsupportedId, Cause::SignerFault]);
         }
     };
     let mut insert = |work: &mut Pairs, key: &[u8], raw: Vec<u8>| -> Option<Vec<u8>> { work.insert(key.to_vec(), raw) };
@@ -609,7 +610,7 @@ pub fn predict_build(entries: &[BEntry], signer: &MSigner) -> Pred {
             TJ::Bad(c) => must.push(if c == Cause::UnsupportedId { Cause::IllTyped } else { c }),
             TJ::Either(w) => {
                 corner = Some(w);
-                may.extend_from_slice(&[Cause::IllTyped, Cause::Malformed]);
+                may.extend_from_slice(&[Cause::IllTyped, Cause::Malformed, Cause::SignerFault]);
             }
         }
     }
